@@ -79,18 +79,57 @@ CHECKS["C09"] = {
                     "edit-config with target=startup is accepted with :startup as the code does (RFC 6241 8.7.5 does not list it; not decided here)",
                     "URL parsing (iri-string) runs on three concrete URLs only"],
     "harnesses": [
-        harness(n, functions=f, bounds=C09_BOUNDS, target="c09") for n, f in [
-            ("c09_get", ["Get::new", "get::Builder::filter/finish", "Filter::try_use"]),
+        harness(n, functions=f, bounds=C09_BOUNDS, target="c09_%d" % (i % 5)) for i, (n, f) in enumerate([
+            ("c09_get_op", ["Get::new", "get::Builder::filter/finish", "Filter::try_use"]),
             ("c09_get_config", ["GetConfig::new", "get_config::Builder::source/filter/finish", "Datastore::try_as_source", "Filter::try_use"]),
             ("c09_lock_unlock", ["Lock::new", "Unlock::new", "lock::Builder::target/finish", "Datastore::try_as_lock_target"]),
             ("c09_commit", ["Commit::new", "commit::Builder::confirmed/confirm_timeout/persist/persist_id/finish"]),
             ("c09_simple_ops", ["CancelCommit::new", "DiscardChanges::new", "KillSession::new", "CloseSession::new"]),
             ("c09_validate_delete", ["Validate::new", "DeleteConfig::new", "Datastore::try_as_source/try_as_target"]),
             ("c09_copy_config", ["CopyConfig::new", "copy_config::Builder::target/source/config/finish"]),
-            ("c09_edit_config", ["EditConfig::new", "edit_config::Builder::target/config/test_option/error_option/finish", "TestOption::try_use", "ErrorOption::try_use"]),
+            ("c09_edit_config_target", ["EditConfig::new", "edit_config::Builder::target/config/finish", "Datastore::try_as_target"]),
+            ("c09_edit_config_options", ["edit_config::Builder::test_option/error_option", "TestOption::try_use", "ErrorOption::try_use"]),
             ("c09_url", ["Url::try_new", "edit_config::Builder::url", "delete_config::Builder::url"]),
+            ("c09_operation_new_gate", ["Operation::new (trait default method, instantiated for DiscardChanges)"]),
             ("c09_junos_ops", ["OpenConfiguration::new", "CloseConfiguration::new", "LockConfiguration::new", "UnlockConfiguration::new", "CommitConfiguration::new"]),
-        ]
+        ])
+    ],
+}
+
+READER_LOOPS = {
+    r"ReadXml.*read_xml": 6,      # reader loops: <= items + End + exit
+    r"seek_end": 4,               # leaf content: text, end (+1)
+    r"name_id_of": 14,
+    r"drop_glue": 4,
+    r"is_whitespace": 20,
+    r"from_ascii": 5,
+}
+
+CHECKS["C08"] = {
+    "crates": ["netconf"],
+    "explanation": "",
+    "assumptions": [],
+    "harnesses": [
+        harness("c08_empty_reply", functions=["EmptyReply::read_xml", "rpc::Error::read_xml"], bounds="<=2 items", loops=READER_LOOPS),
+    ],
+}
+
+AGENT = "bgpfu-junos-agent"
+CHECKS["C19"] = {
+    "crates": ["netconf", "junos-agent"],
+    "explanation": "Loop::start (the select! loop, interval resets, back-off arithmetic) and handle_task are executed symbolically over the "
+                   "virtual clock of the tokio model: every period in 1..2^40 s, every outcome sequence of 4 consecutive runs, every job "
+                   "duration 0..100 s; SIGHUP/SIGINT/SIGTERM arriving at any instant while the loop waits.",
+    "assumptions": ["the outcome of each updater job is chosen by the harness through the tokio model's spawn override (JoinHandle completes "
+                    "with Ok(()) or Err); what happens inside a run is C04's subject",
+                    "tokio::time::Interval modelled after tokio 1.37 (Burst): tick at deadline d re-arms d+period; reset()=now+period; "
+                    "reset_after(x)=now+x; reset_immediately()=now",
+                    "overflow of `backoff * 2` needs 58 consecutive failures and is outside the 4-run bound"],
+    "harnesses": [
+        harness("c19_backoff_and_period", package=AGENT, functions=["task::Loop::start", "task::handle_task", "task::Updater::init_loop"],
+                bounds="period 1..2^40 s, 4 runs, job duration <= 100 s", loops={r"Loop.*start": 6}),
+        harness("c19_signals", package=AGENT, functions=["task::Loop::start (signal arms)"], bounds="one run, then one signal at any time before the timer", loops={r"Loop.*start": 4}),
+        harness("c19_frequency_zero_is_one_shot", package=AGENT, functions=["cli::Frequency::from"], bounds="all u64"),
     ],
 }
 
